@@ -25,7 +25,7 @@ OUTSIDE = ['forests deeper than 2 / more than 4 leaves (+2 extended at run time)
            'finish-exactly-once / nothing-after (DESIGN C01 note)']
 STUBS = []
 ASSUMPTIONS = ['all yielded tocks are 0 (asap): timing is the subject of C03, not of the lifecycle', 'scheduler tock 1.0']
-REQUIRED_TAGS = ['controller-extends-idle-always-dodoer', 'raise-in-recur', 'raise-in-enter', 'raise-in-enter-during-extend', 'removed-while-due', 'limit-stop', 'kbd-interrupt',
+REQUIRED_TAGS = ['extend-from-cease-hook', 'controller-extends-idle-always-dodoer', 'raise-in-recur', 'raise-in-enter', 'raise-in-enter-during-extend', 'removed-while-due', 'limit-stop', 'kbd-interrupt',
                  'nested-child-raises', 'fault-mid-cycle-with-doers-on-both-sides', 'exit-after-extend-from-inside',
                  'parent-closed-with-live-children', 'self-remove']
 RULE = 'tags name the exit paths of the statement: raise in recur/enter, enter failing during extend, removal, limit, KeyboardInterrupt, nested child raising'
@@ -47,6 +47,10 @@ def partitions(tier, oracle='c01'):
         for who in names:
             for act in ACTS[1:]:
                 ps.append(dict(name='%s-%s-%s' % (sh, act, who), shape=sh, act=act, who=who, oracle=oracle))
+    if oracle == 'c01':
+        # a class doer whose cease hook extends the scheduler that is force-closing it (a "flush" doer spawned at shutdown)
+        for sh, who in (('flat4', 'a'), ('flat4', 'b'), ('nest', 'b'), ('nest', 'c'), ('nest2', 'c'), ('nest2', 'a')):
+            ps.append(dict(name='%s-cease-extend-%s' % (sh, who), shape=sh, act='cease-extend', who=who, oracle=oracle))
     for act in ('none', 'ctl-extend', 'ctl-extend-raise', 'ctl-extend-remove-group', 'ctl-remove'):
         ps.append(dict(name='ctl-%s-d' % act, shape='ctl', act=act, who='d' if act != 'none' else None, oracle=oracle))
     b = BOUNDS[tier]
@@ -103,6 +107,10 @@ def run(sym, part):
             return
         if act == 'enter-raise':
             scripts[who].enter_raises = True
+            return
+        if act == 'cease-extend':
+            scripts[who].on_cease = (sched.EXTEND, ['x'])
+            sym.cover('extend-from-cease-hook')
             return
         step = sym.cint('fstep' + tag, 0, part['max_fin'])
         if act == 'raise':
